@@ -4,20 +4,40 @@ set -e
 cd "$(dirname "$0")"
 export GOFLAGS=-mod=mod GOPROXY=off GOSUMDB=off GOTOOLCHAIN=local
 python3 - <<'PY'
-import sys, os
+import sys, os, json
 sys.path.insert(0, "lib")
 import checklib
 class P: ID = "setup"
 ctx = checklib.Ctx(P, "quick", 0)
-rc, out = checklib.coq_make(ctx, [])
+props = [c["property_id"] for c in json.load(open("MANIFEST.json"))["checks"]]
+targets = []
+for p in props:
+    targets += ["Run/%s.vo" % p, "Properties/%s.vo" % p]
+    sys.path.insert(0, "lib")
+    try:
+        mod = __import__("props." + p.lower(), fromlist=["x"])
+        if hasattr(mod, "pre_build"):
+            ctx.prop = mod
+            mod.pre_build(ctx)
+        targets += list(getattr(mod, "EXTRA_TARGETS", []))
+    except Exception as e:
+        print("setup: props module of", p, "->", e)
+rc, out = checklib.coq_make(ctx, targets)
 print(out[-3000:])
 ctx.cleanup()
 sys.exit(rc)
 PY
 cp /repo/dnsrocks/go.sum harness/go.sum
 mkdir -p harness/bin
-for d in harness/cmd/*/; do
-  n=$(basename "$d")
+for n in $(python3 -c "
+import json,sys
+sys.path.insert(0,'lib')
+seen=[]
+for c in json.load(open('MANIFEST.json'))['checks']:
+    m=__import__('props.'+c['property_id'].lower(), fromlist=['x'])
+    for h in [getattr(m,'HARNESS',None)]+list(getattr(m,'EXTRA_HARNESS',[])):
+        if h and h not in seen: seen.append(h)
+print(' '.join(seen))"); do
   (cd harness && go build -tags verif -ldflags=-checklinkname=0 -o bin/$n ./cmd/$n) || echo "setup: harness $n did not build (its check will report it)"
 done
 echo setup done
